@@ -33,7 +33,7 @@ func TestMain(m *testing.M) { ev.Main(m) }
 type Case struct {
 	Backend string         `json:"backend"` // mem | os
 	Archive zipgen.Archive `json:"archive"`
-	Dest    string         `json:"dest_spelling"` // abs | abs/ | abs// | rel | ./rel | rel/ | x/../rel | abs-nonascii
+	Dest    string         `json:"dest_spelling"` // abs | abs/ | abs// | rel | ./rel | rel/ | x/../rel | abs-nonascii | dotdot | dotdot2
 	Limits  string         `json:"limits"`        // none | nonrecursive | recursive
 }
 
@@ -52,6 +52,7 @@ var hostile = [][]byte{
 	[]byte("...zip"), []byte("..zip"), []byte(".zip"), []byte("x.zip"), []byte("..7z"), []byte("...gz"), []byte("...jar"),
 	// siblings of the destination whose names begin with the destination's name (a containment test by plain string
 	// prefix accepts them): the sandbox has <parent>/dest-sibling/, and the archive may create dest2, destx ...
+	[]byte("/../"), []byte("/../../"), []byte("//../"), []byte("/x/../../"),
 	[]byte("../dest-sibling/"), []byte("../dest2"), []byte("../destx/"), []byte("dest-sibling"), []byte("dest2"),
 	[]byte(".\x1b(B./dest-sibling/"), []byte(".\x1b(B./dest2"), []byte(".\x1b(J./destx/"), []byte(".\x0f./dest-sibling/"),
 	[]byte("../d\xc3\xa9 st \xe6\x97\xa5\xe6\x9c\xac-sibling/"), []byte(".\x1b(B./d\xc3\xa9 st \xe6\x97\xa5\xe6\x9c\xac-sibling/"),
@@ -268,6 +269,17 @@ func checkCase(t ev.T, test string, c Case) {
 	must(afero.WriteFile(raw, arch, data, 0o644))
 
 	dest := destSpelling(c.Dest, destAbs, cwd)
+	if c.Dest == "dotdot" || c.Dest == "dotdot2" {
+		// a destination spelled with parent references only: the working directory lies inside the destination
+		must(raw.MkdirAll(filepath.Join(destAbs, "in", "ner"), 0o755))
+		cwd, dest = filepath.Join(destAbs, "in"), ".."
+		if c.Dest == "dotdot2" {
+			cwd, dest = filepath.Join(destAbs, "in", "ner"), "../.."
+		}
+		if c.Backend != "os" {
+			dest = destAbs
+		}
+	}
 	if c.Backend == "os" {
 		must(os.Chdir(cwd))
 		defer func() { _ = os.Chdir(os.TempDir()) }()
@@ -371,7 +383,10 @@ func TestUnzipContainment(t *testing.T) {
 		c := Case{Backend: rapid.SampledFrom([]string{"mem", "mem", "os"}).Draw(rt, "backend")}
 		var h bool
 		c.Archive, h = genArchive(rt, "a", 0)
-		c.Dest = rapid.SampledFrom([]string{"abs", "abs", "abs/", "abs//", "rel", "./rel", "rel/", "x/../rel", "abs-nonascii"}).Draw(rt, "dest")
+		c.Dest = rapid.SampledFrom([]string{"abs", "abs", "abs/", "abs//", "rel", "./rel", "rel/", "x/../rel", "abs-nonascii", "dotdot", "dotdot2"}).Draw(rt, "dest")
+		if c.Dest == "dotdot" || c.Dest == "dotdot2" {
+			c.Backend = "os" // only a backend with a working directory can be given such a destination
+		}
 		c.Limits = rapid.SampledFrom([]string{"none", "nonrecursive", "recursive", "recursive"}).Draw(rt, "limits")
 		key, _ := json.Marshal(c)
 		ev.Case(string(key), h, c.Backend+"/"+c.Limits, c)
